@@ -43,3 +43,6 @@ package asa
 //vc:  ensures[C06] @hostnameVerified err == nil ==> nameChecked && checkedName == path.Base(spocFile)
 //vc:  ensures[C06] @missingBannerRecorded err == nil ==> (markerMissing ==> len(s.State.errUnmanaged) > 0)
 //vc:  ensures[C09] @unmanagedErrorNotNil err == nil && isnil(old(s.State.errUnmanaged)) && !isnil(s.State.errUnmanaged) ==> len(s.State.errUnmanaged) > 0 && s.State.errUnmanaged[0] != nil
+
+// ---- C16 ----
+//vc:maprange[C16] isValidOutput 1 "for prefix, re := range validOutput" first-match existential test (any matching table entry makes the line valid); the result is a disjunction over all entries
